@@ -208,11 +208,12 @@ class Api(Engine):
                 failed = ended = False
                 continue
             if failed and w[0] not in ('close', 'free', 'errno', 'error_string', 'fail'):
+                what = f'{kind}.{w[0]}' + (' ' + w[1] if w[0] in ('add_filter', 'read_data') and len(w) > 1 else '')
                 if rc != 'fatal':
-                    return f'{w[0]} on a failed handle returned {rc}'
+                    return f'{what} on a failed handle returned {rc}'
                 if st != 'fatal':
-                    return f'{w[0]} on a failed handle left state {st}'
-            if w[0] in ('close', 'free') and rc == 'fatal' and not failed:
+                    return f'{what} on a failed handle left state {st}'
+            if w[0] in ('close', 'free') and rc == 'fatal' and st == 'fatal' and not failed:
                 return f'{w[0]} refused'
             if w[0] in ('next_header', 'next_header2'):
                 if ended and rc in ('ok', 'warn'):
